@@ -2,9 +2,110 @@ package main
 
 import (
 	"go/token"
+	"sync"
 
 	"golang.org/x/tools/go/ssa"
 )
+
+// If-conversion of side-effect-free regions.
+//
+// For an If block B whose immediate post-dominator is J, both arms are evaluated speculatively (only
+// pure instructions are allowed; nested Ifs are converted recursively) and the phis of J become ite
+// terms. Values computed in the arms are written into the frame environment, which is safe under SSA
+// dominance (they can only be used in blocks they dominate, or through J's phis).
+
+var ipdomCache sync.Map // *ssa.Function -> []*ssa.BasicBlock (indexed by block index; nil = exit)
+
+func ipdoms(fn *ssa.Function) []*ssa.BasicBlock {
+	if v, ok := ipdomCache.Load(fn); ok {
+		return v.([]*ssa.BasicBlock)
+	}
+	n := len(fn.Blocks)
+	// node n = virtual exit
+	exit := n
+	succs := make([][]int, n+1)
+	for _, b := range fn.Blocks {
+		if len(b.Succs) == 0 {
+			succs[b.Index] = []int{exit}
+		}
+		for _, s := range b.Succs {
+			succs[b.Index] = append(succs[b.Index], s.Index)
+		}
+	}
+	// postorder on the reverse graph from exit
+	preds := make([][]int, n+1) // reverse graph successors = original preds
+	for i := 0; i <= n; i++ {
+		for _, s := range succs[i] {
+			preds[s] = append(preds[s], i)
+		}
+	}
+	order := []int{}
+	seen := make([]bool, n+1)
+	var dfs func(int)
+	dfs = func(u int) {
+		seen[u] = true
+		for _, v := range preds[u] {
+			if !seen[v] {
+				dfs(v)
+			}
+		}
+		order = append(order, u)
+	}
+	dfs(exit)
+	num := make([]int, n+1)
+	for i := range num {
+		num[i] = -1
+	}
+	for i, u := range order {
+		num[u] = i
+	}
+	idom := make([]int, n+1)
+	for i := range idom {
+		idom[i] = -1
+	}
+	idom[exit] = exit
+	intersect := func(a, b int) int {
+		for a != b {
+			for num[a] < num[b] {
+				a = idom[a]
+			}
+			for num[b] < num[a] {
+				b = idom[b]
+			}
+		}
+		return a
+	}
+	changed := true
+	for changed {
+		changed = false
+		for i := len(order) - 2; i >= 0; i-- {
+			u := order[i]
+			nw := -1
+			for _, s := range succs[u] {
+				if num[s] < 0 || idom[s] < 0 {
+					continue
+				}
+				if nw < 0 {
+					nw = s
+				} else {
+					nw = intersect(nw, s)
+				}
+			}
+			if nw >= 0 && idom[u] != nw {
+				idom[u] = nw
+				changed = true
+			}
+		}
+	}
+	out := make([]*ssa.BasicBlock, n)
+	for i := 0; i < n; i++ {
+		if idom[i] >= 0 && idom[i] < n {
+			out[i] = fn.Blocks[idom[i]]
+		}
+	}
+	ipdomCache.Store(fn, out)
+	return out
+}
 
 // pureInstr reports whether in can be evaluated without forking or side effects.
 func (e *Engine) pureInstr(fr *frame, in ssa.Instruction) bool {
@@ -35,99 +136,252 @@ func (e *Engine) pureInstr(fr *frame, in ssa.Instruction) bool {
 		return ok
 	case *ssa.ChangeType, *ssa.Extract, *ssa.Field, *ssa.DebugRef:
 		return true
+	case *ssa.MakeInterface, *ssa.Slice:
+		return onlyFeedsNoop(x.(ssa.Value), 0)
+	case *ssa.Alloc:
+		return onlyFeedsNoop(x, 0)
+	case *ssa.FieldAddr:
+		p, ok := e.get(fr, x.X).(Ptr)
+		return ok && p.loc != nil && len(e.world.watch) == 0
+	case *ssa.IndexAddr:
+		idx, ok := e.get(fr, x.Index).(*Term)
+		if !ok || idx.Op != "c" {
+			return false
+		}
+		switch b := e.get(fr, x.X).(type) {
+		case SliceV:
+			return b.len.Op == "c" && idx.C < b.len.C && (b.sa != nil || b.off.Op == "c")
+		case Ptr:
+			switch l := b.loc.(type) {
+			case *SArrLoc:
+				return idx.C < uint64(l.n)
+			case *ArrayLoc:
+				return idx.C < uint64(len(l.e))
+			}
+		}
+		return false
+	case *ssa.Call:
+		// len/cap builtins are pure
+		if b, ok := x.Call.Value.(*ssa.Builtin); ok && (b.Name() == "len" || b.Name() == "cap") {
+			return true
+		}
+		if f := x.Call.StaticCallee(); f != nil && noopCalls[f.String()] {
+			// arguments of a variadic logging call may allocate (MakeInterface/Alloc/Store): those are
+			// handled by treating the whole call as a no-op only when the arm contains nothing else impure
+			return true
+		}
+		return false
 	}
 	return false
 }
 
-// runArm evaluates a side-effect-free arm starting at blk (entered from prev)
-// until it reaches a join block (more than one predecessor). Values are written
-// into fr.env (SSA dominance makes that safe).
-func (e *Engine) runArm(fr *frame, blk, prev *ssa.BasicBlock, depth int) (*ssa.BasicBlock, *ssa.BasicBlock, bool) {
-	skipJoinCheck := false
-	for steps := 0; steps < 64; steps++ {
-		if len(blk.Preds) > 1 && !skipJoinCheck {
-			return blk, prev, true
-		}
-		skipJoinCheck = false
-		for _, in := range blk.Instrs {
-			switch x := in.(type) {
-			case *ssa.Phi:
-				if len(blk.Preds) == 1 {
-					fr.env[x] = e.get(fr, x.Edges[0])
-				}
-				// phis of a merged join were already assigned
-			case *ssa.Jump:
-				prev, blk = blk, blk.Succs[0]
-			case *ssa.If:
-				c := e.get(fr, x.Cond).(*Term)
-				if c.IsTrue() {
-					prev, blk = blk, blk.Succs[0]
-				} else if c.IsFalse() {
-					prev, blk = blk, blk.Succs[1]
-				} else {
-					if depth > 6 {
-						return nil, nil, false
-					}
-					j, ok := e.mergeIf(fr, blk, c, depth+1)
-					if !ok {
-						return nil, nil, false
-					}
-					prev, blk = nil, j
-					skipJoinCheck = true
-				}
-			case ssa.Value:
-				if !e.pureInstr(fr, in) {
-					return nil, nil, false
-				}
-				fr.env[x] = e.eval(fr, x)
-			default:
-				return nil, nil, false
-			}
-		}
-	}
-	return nil, nil, false
+var noopCalls = map[string]bool{
+	"github.com/mit-pdos/go-journal/util.DPrintf": true,
+	"log.Printf": true,
 }
 
-// mergeIf tries to if-convert the diamond rooted at ifBlk. On success the phis of
-// the join block are assigned and the join block is returned.
-func (e *Engine) mergeIf(fr *frame, ifBlk *ssa.BasicBlock, c *Term, depth int) (*ssa.BasicBlock, bool) {
-	tj, tp, ok1 := e.runArm(fr, ifBlk.Succs[0], ifBlk, depth)
-	if !ok1 {
-		return nil, false
-	}
-	fj, fp, ok2 := e.runArm(fr, ifBlk.Succs[1], ifBlk, depth)
-	if !ok2 || tj != fj || tp == nil || fp == nil {
-		return nil, false
-	}
-	type pv struct {
-		p *ssa.Phi
-		v Value
-	}
-	var out []pv
-	for _, in := range tj.Instrs {
+type phiVals map[*ssa.Phi]Value
+
+// edgeVals computes the phi values of blk when entered from pred.
+func (e *Engine) edgeVals(fr *frame, blk, pred *ssa.BasicBlock) phiVals {
+	out := phiVals{}
+	for _, in := range blk.Instrs {
 		p, ok := in.(*ssa.Phi)
 		if !ok {
 			break
 		}
-		var vt, vf Value
-		for i, pr := range tj.Preds {
-			if pr == tp {
-				vt = e.get(fr, p.Edges[i])
-			}
-			if pr == fp {
-				vf = e.get(fr, p.Edges[i])
+		for i, pr := range blk.Preds {
+			if pr == pred {
+				out[p] = e.get(fr, p.Edges[i])
+				break
 			}
 		}
-		a, ok1 := vt.(*Term)
-		b, ok2 := vf.(*Term)
-		if !ok1 || !ok2 {
+	}
+	return out
+}
+
+// runArm evaluates a pure arm starting at blk (entered from prev) until it arrives at target; it
+// returns the values target's phis receive from this arm.
+func (e *Engine) runArm(fr *frame, blk, prev, target *ssa.BasicBlock, depth int, budget *int) (phiVals, bool) {
+	var pending phiVals // phi values for blk computed by a nested merge
+	for {
+		*budget--
+		if *budget < 0 {
 			return nil, false
 		}
-		out = append(out, pv{p, Ite(c, a, b)})
+		if blk == target {
+			if pending != nil {
+				return pending, true
+			}
+			return e.edgeVals(fr, blk, prev), true
+		}
+		// enter blk: assign its phis
+		if pending != nil {
+			for p, v := range pending {
+				fr.env[p] = v
+			}
+			pending = nil
+		} else {
+			for p, v := range e.edgeVals(fr, blk, prev) {
+				fr.env[p] = v
+			}
+		}
+		var next *ssa.BasicBlock
+		for _, in := range blk.Instrs {
+			switch x := in.(type) {
+			case *ssa.Phi:
+				continue
+			case *ssa.Jump:
+				next = blk.Succs[0]
+			case *ssa.If:
+				c := e.get(fr, x.Cond).(*Term)
+				if c.IsTrue() {
+					next = blk.Succs[0]
+				} else if c.IsFalse() {
+					next = blk.Succs[1]
+				} else {
+					if depth > 8 {
+						return nil, false
+					}
+					j, vals, ok := e.mergeArms(fr, blk, c, depth+1, budget)
+					if !ok {
+						return nil, false
+					}
+					pending = vals
+					prev, blk = nil, j
+					next = nil
+					goto cont
+				}
+			case *ssa.Store:
+				a, ok := x.Addr.(ssa.Value)
+				if !ok || !onlyFeedsNoop(a, 0) {
+					return nil, false
+				}
+				// dropped: the destination only feeds a no-op logging call
+			case ssa.Value:
+				if !e.pureInstr(fr, in) {
+					return nil, false
+				}
+				if c, ok := in.(*ssa.Call); ok {
+					if f := c.Call.StaticCallee(); f != nil && noopCalls[f.String()] {
+						fr.env[x] = nil
+						continue
+					}
+				}
+				fr.env[x] = e.eval(fr, x)
+			default:
+				return nil, false
+			}
+			if next != nil {
+				break
+			}
+		}
+		if next == nil {
+			return nil, false
+		}
+		prev, blk = blk, next
+	cont:
 	}
-	for _, o := range out {
-		fr.env[o.p] = o.v
+}
+
+// mergeArms if-converts the region between ifBlk and its immediate post-dominator.
+func (e *Engine) mergeArms(fr *frame, ifBlk *ssa.BasicBlock, c *Term, depth int, budget *int) (*ssa.BasicBlock, phiVals, bool) {
+	target := ipdoms(fr.fn)[ifBlk.Index]
+	if target == nil {
+		return nil, nil, false
+	}
+	vt, ok := e.runArm(fr, ifBlk.Succs[0], ifBlk, target, depth, budget)
+	if !ok {
+		return nil, nil, false
+	}
+	vf, ok := e.runArm(fr, ifBlk.Succs[1], ifBlk, target, depth, budget)
+	if !ok {
+		return nil, nil, false
+	}
+	out := phiVals{}
+	for p, a := range vt {
+		b, ok := vf[p]
+		if !ok {
+			return nil, nil, false
+		}
+		ta, ok1 := a.(*Term)
+		tb, ok2 := b.(*Term)
+		if !ok1 || !ok2 {
+			if !ok1 && !ok2 && sameValue(a, b) {
+				out[p] = a
+				continue
+			}
+			return nil, nil, false
+		}
+		out[p] = Ite(c, ta, tb)
+	}
+	return target, out, true
+}
+
+func sameValue(a, b Value) bool {
+	switch x := a.(type) {
+	case Ptr:
+		y, ok := b.(Ptr)
+		return ok && x.loc == y.loc
+	}
+	return false
+}
+
+// mergeIf tries to if-convert the region rooted at ifBlk. On success the phis of the join block are
+// assigned and the join block is returned.
+func (e *Engine) mergeIf(fr *frame, ifBlk *ssa.BasicBlock, c *Term, depth int) (*ssa.BasicBlock, bool) {
+	budget := 400
+	j, vals, ok := e.mergeArms(fr, ifBlk, c, depth, &budget)
+	if !ok {
+		return nil, false
+	}
+	for p, v := range vals {
+		fr.env[p] = v
 	}
 	e.merged++
-	return tj, true
+	return j, true
+}
+
+// onlyFeedsNoop reports whether every (transitive) use of v ends in an argument of a no-op call
+// (the variadic argument array of a logging call: Alloc -> IndexAddr -> Store, Slice -> Call).
+func onlyFeedsNoop(v ssa.Value, depth int) bool {
+	if depth > 4 {
+		return false
+	}
+	refs := v.Referrers()
+	if refs == nil || len(*refs) == 0 {
+		return false
+	}
+	for _, r := range *refs {
+		switch u := r.(type) {
+		case *ssa.Call:
+			f := u.Call.StaticCallee()
+			if f == nil || !noopCalls[f.String()] {
+				return false
+			}
+		case *ssa.IndexAddr:
+			if !onlyFeedsNoop(u, depth+1) {
+				return false
+			}
+		case *ssa.Slice:
+			if !onlyFeedsNoop(u, depth+1) {
+				return false
+			}
+		case *ssa.Store:
+			// storing v itself somewhere (as a value) is only fine if the destination is such an array
+			if u.Val == v {
+				if a, ok := u.Addr.(ssa.Value); !ok || !onlyFeedsNoop(a, depth+1) {
+					return false
+				}
+			}
+		case *ssa.MakeInterface:
+			if !onlyFeedsNoop(u, depth+1) {
+				return false
+			}
+		case *ssa.DebugRef:
+		default:
+			return false
+		}
+	}
+	return true
 }
